@@ -438,36 +438,69 @@ def _confidence(ctx, f):
     calls = [n for n in ast.walk(f.node) if isinstance(n, ast.Call)
              and ast.unparse(n.func) == "picked_protein"]
     ctx.require(len(calls) == 1, f"{f.qual}: picked_protein call not found")
-    a = [ast.unparse(x) for x in calls[0].args]
-    ok = a == ["data", "self._target_column", "self._peptide_column",
-               "self._score_column", "self._proteins", "self._rng"]
+    prog = ctx.prog
+    du = DefUse(prog, f)
+    T = Terms(du)
+    pp = prog.func(PP + "picked_protein")
+    b = {k: T.of(v) for k, v in prog.bind(pp, calls[0]).items()}
+    SELF = ("param", "self")
+    want = {pp.params[1]: ("attr", SELF, "_target_column"),
+            pp.params[2]: ("attr", SELF, "_peptide_column"),
+            pp.params[3]: ("attr", SELF, "_score_column"),
+            pp.params[4]: ("attr", SELF, "_proteins"),
+            pp.params[5]: ("attr", SELF, "_rng")}
+    ok = all(b.get(k) == v for k, v in want.items())
     ctx.check(ok, "C15c-confidence-arguments", f,
               "picked_protein receives the peptide-level table, the label, "
               "peptide and score columns, the Proteins object and the rng",
-              f"picked_protein({a})", node=calls[0])
+              f"picked_protein({ {k: show(v, 40) for k, v in b.items()} })",
+              node=calls[0])
     cfg = CFG(f.node)
-    rd = [n for n in ast.walk(f.node) if isinstance(n, ast.Assign)
-          and ast.unparse(n.targets[0]) == "data"
-          and "level_paths[1]" in ast.unparse(n.value)]
-    conv = [n for n in ast.walk(f.node) if isinstance(n, ast.Call)
-            and ast.unparse(n.func) == "convert_targets_column"
-            and any(ast.unparse(g[0]) == "self._proteins"
-                    for g in cfg.guards(n))]
-    ok_r = len(rd) == 1 and len(conv) == 1 and cfg.every_path_passes(
-        cfg.node_of(rd[0]).id, cfg.node_of(calls[0]).id,
-        {cfg.node_of(conv[0]).id})
+    table = prog.bind(pp, calls[0]).get(pp.params[0])
+    tt = b.get(pp.params[0], ("x",))
+    LEVEL1 = ("sub", ("param", "level_paths"), ("const", 1))
+    from_level1 = any(
+        isinstance(x, tuple) and x and x[0] == "mcall" and x[2] == "read"
+        and any(y == LEVEL1 for y in walk_term(x[1]))
+        for x in walk_term(tt))
+    ok_r = False
+    if from_level1:
+        if any(isinstance(x, tuple) and x[:2] == (
+                "call", "mokapot.utils.convert_targets_column")
+                for x in walk_term(tt)):
+            ok_r = True         # converted value is what is passed on
+        elif isinstance(table, ast.Name):
+            # converted in place: a convert_targets_column(table, ...) call
+            # on the same object lies on every path to the inference
+            tdefs = {d.uid for d in du.defs_of(table)}
+            conv = [n for n in ast.walk(f.node) if isinstance(n, ast.Call)
+                    and ast.unparse(n.func).split(".")[-1] ==
+                    "convert_targets_column"]
+            for c in conv:
+                cb = prog.bind(prog.func(
+                    "mokapot.utils.convert_targets_column"), c)
+                d_ = cb.get("data")
+                if isinstance(d_, ast.Name) and tdefs & {
+                        x.uid for x in du.defs_of(d_)} and \
+                        cfg.every_path_passes(
+                            cfg.entry.id,
+                            cfg.node_of(cfg.stmt_of(calls[0])).id,
+                            {cfg.node_of(cfg.stmt_of(c)).id}):
+                    ok_r = True
     ctx.check(ok_r, "C15c-peptide-level-input", f,
               "the table is the retained peptide level (level_paths[1]) "
               "with converted labels",
-              "protein inference does not start from the peptide-level "
-              "file", node=calls[0])
+              f"protein inference starts from {show(tt, 120)}",
+              node=calls[0])
+    PICK = norm_calls(prog, T.of(calls[0]))
     sv = [n for n in ast.walk(f.node) if isinstance(n, ast.Call)
           and isinstance(n.func, ast.Attribute)
           and n.func.attr == "sort_values"
-          and ast.unparse(n.func.value) == "proteins"]
-    ok_s = len(sv) == 1 and {k.arg: ast.unparse(k.value)
+          and norm_calls(prog, T.of(n.func.value)) == PICK]
+    ok_s = len(sv) == 1 and {k.arg: T.of(k.value)
                              for k in sv[0].keywords} == {
-        "by": "self._score_column", "ascending": "False"}
+        "by": ("attr", SELF, "_score_column"),
+        "ascending": ("const", False)}
     ctx.check(ok_s, "C15c-protein-level-sorted", f,
               "protein entries are written best first, like the other "
               "levels", f"{[ast.unparse(s)[:80] for s in sv]}",
